@@ -3,3 +3,4 @@ import LpModel.C20.Generated
 import LpModel.C20.IO
 import LpModel.C20.Time
 import LpModel.C20.Text
+import LpModel.C20.Chunk
